@@ -426,6 +426,40 @@ def run(ctx, rep):
     rep.ob("R08.3", "_seq_request_callback: no other access to the callback table", not other_access,
            "the table is only touched by the pop" if not other_access else
            "check-then-act on the callback table (subscript access besides pop)", fc.loc, kind="site")
+    if table:
+        # package-wide: nobody else runs the callbacks of the table. A callback that is invoked while its entry is still in the
+        # table (a loop over .values() in the close path, a peek with [] or .get()) can be invoked again by the dispatching
+        # thread that pops the same entry: the request completes twice, the second outcome overwrites the first
+        runners = []
+        for m_ in ctx.cls(K.CONN).methods.values():
+            if m_ is fc:
+                continue
+            tainted = set()
+            for n_ in A.walk(m_.node):
+                src_ = None
+                if isinstance(n_, ast.For):
+                    src_, tgt_ = n_.iter, n_.target
+                elif isinstance(n_, ast.Assign) and len(n_.targets) == 1:
+                    src_, tgt_ = n_.value, n_.targets[0]
+                elif isinstance(n_, ast.comprehension):
+                    src_, tgt_ = n_.iter, n_.target
+                if src_ is None:
+                    continue
+                reads = [x for x in A.walk(src_) if K.self_attr(x, table)]
+                removing = any(isinstance(c_.func, ast.Attribute) and c_.func.attr in ("pop", "popitem") and
+                               K.self_attr(c_.func.value, table) for c_ in A.calls(src_))
+                if reads and not removing:
+                    tainted |= {x.id for x in A.walk(tgt_) if isinstance(x, ast.Name)}
+            for c_ in A.calls(m_.node):
+                if isinstance(c_.func, ast.Name) and c_.func.id in tainted:
+                    runners.append((c_, m_))
+                if isinstance(c_.func, ast.Subscript) and K.self_attr(c_.func.value, table):
+                    runners.append((c_, m_))
+        rep.ob("R08.3", "package: a pending request's callback runs only after it was removed from the table (one atomic pop)",
+               not runners, "no method invokes a callback it merely read from self.%s" % table if not runners else
+               "%s calls `%s` on entries that are still registered: a reply dispatched concurrently pops and completes the same "
+               "request again (two outcomes for one request)" % (runners[0][1].name, A.src(runners[0][0])[:60]),
+               ctx.loc(runners[0][0]) if runners else fc.loc, kind="site")
     if okpop:
         pop_stmt = A.enclosing(pops[0], ast.stmt)
         cbvar = pop_stmt.targets[0].id if isinstance(pop_stmt, ast.Assign) and isinstance(pop_stmt.targets[0], ast.Name) else None
